@@ -17,6 +17,10 @@ pub mod verif {
     pub static mut BASE_FILE_OK: bool = false;
     /// the 8-byte suffix the profile file name must end with (set by the harness)
     pub static mut EXPECT_PROFILE_FILE: [u8; 8] = *b"/dev.yml";
+    /// the directory the files must be looked up in (set by the harness): the full path handed to
+    /// `Yaml::file` must be `<dir>/<file>`
+    pub static mut EXPECT_DIR: &str = "conf";
+    pub static mut DIR_OK: bool = true;
 }
 #[derive(Clone, Copy)]
 pub struct Layer { src: Src, join: bool }
@@ -78,6 +82,12 @@ pub mod providers {
             // loop-free suffix tests (a `memcmp`/`Components` walk would dictate the global unwind bound)
             let b = path.as_ref().as_os_str().as_encoded_bytes();
             let n = b.len();
+            // <dir> + '/' + 8-byte file name ("base.yml" / "dev.yml" / "prd.yml" are 8 or 7 bytes long)
+            let d = unsafe { verif::EXPECT_DIR }.as_bytes();
+            // loop-free: total length, the separator, and the first two bytes of the directory (the
+            // harness directories "cf" and "/a" are two bytes long, i.e. fully compared)
+            let dir_ok = d.len() >= 2 && n > d.len() + 1 && b[d.len()] == b'/' && b[0] == d[0] && b[1] == d[1] && (n == d.len() + 1 + 8 || n == d.len() + 1 + 7);
+            if !dir_ok { unsafe { verif::DIR_OK = false; } }
             let is = |w: &[u8; 8]| n >= 8 && b[n-8]==w[0] && b[n-7]==w[1] && b[n-6]==w[2] && b[n-5]==w[3] && b[n-4]==w[4] && b[n-3]==w[5] && b[n-2]==w[6] && b[n-1]==w[7];
             if is(b"base.yml") { unsafe { verif::BASE_FILE_OK = true; } YamlFile { src: Src::Base } }
             else { let w = unsafe { verif::EXPECT_PROFILE_FILE }; if is(&w) { unsafe { verif::PROFILE_FILE_OK = true; } } YamlFile { src: Src::Profile } }
